@@ -124,8 +124,11 @@ def run_threads(prop: str, gen, ctx, n_threads: int = 4, n_cases: int = 60) -> N
     import sys
     import threading
 
-    rng = ctx.rng(prop, "threads")
-    work = [[gen(rng) for _ in range(n_cases)] for _ in range(n_threads)]
+    rng = ctx.rng(prop, "threads", ctx.counters.get("decodes_in_concurrent_threads", 0))
+    gens = gen if isinstance(gen, (list, tuple)) else [gen]
+    # with several generators every thread sticks to one kind of message (e.g. one thread per meter), which is how an application
+    # serving several meters looks and what makes state shared between the kinds visible
+    work = [[gens[t % len(gens)](rng) for _ in range(n_cases)] for t in range(n_threads)]
     problems: list = []
     barrier = threading.Barrier(n_threads)
     old = sys.getswitchinterval()
